@@ -153,6 +153,11 @@ where
         notified.await;
 
         let ready_result = self.ready_result.lock().await;
+
+        // Verification hook: a reader which holds the result lock while it looks at the result.
+        #[cfg(p2panda_p2panda_verif)]
+        p2panda_core::verif::point("task.ready.holding_result").await;
+
         ready_result
             .clone()
             .expect("result exists after ready signal was fired")
